@@ -208,10 +208,12 @@ func delRes(err error) Res {
 	}
 }
 
-func (b *legacyBackend) Delete(ctx context.Context, key []byte) Res { return delRes(b.rw.Delete(ctx, key)) }
-func (b *legacyBackend) ExpireAll(ctx context.Context)             { b.rw.ExpireAll(ctx) }
-func (b *legacyBackend) DeleteAll(ctx context.Context)             { b.rw.DeleteAll(ctx) }
-func (b *legacyBackend) Len() int                                  { return b.rw.Len() }
+func (b *legacyBackend) Delete(ctx context.Context, key []byte) Res {
+	return delRes(b.rw.Delete(ctx, key))
+}
+func (b *legacyBackend) ExpireAll(ctx context.Context) { b.rw.ExpireAll(ctx) }
+func (b *legacyBackend) DeleteAll(ctx context.Context) { b.rw.DeleteAll(ctx) }
+func (b *legacyBackend) Len() int                      { return b.rw.Len() }
 
 func (b *legacyBackend) Walk() Res {
 	var out []WEntry
@@ -287,10 +289,12 @@ func (b *genericBackend) Write(ctx context.Context, key []byte, v int64) error {
 	return b.m.Write(ctx, key, int(v))
 }
 
-func (b *genericBackend) Delete(ctx context.Context, key []byte) Res { return delRes(b.m.Delete(ctx, key)) }
-func (b *genericBackend) ExpireAll(ctx context.Context)             { b.m.ExpireAll(ctx) }
-func (b *genericBackend) DeleteAll(ctx context.Context)             { b.m.DeleteAll(ctx) }
-func (b *genericBackend) Len() int                                  { return b.m.Len() }
+func (b *genericBackend) Delete(ctx context.Context, key []byte) Res {
+	return delRes(b.m.Delete(ctx, key))
+}
+func (b *genericBackend) ExpireAll(ctx context.Context) { b.m.ExpireAll(ctx) }
+func (b *genericBackend) DeleteAll(ctx context.Context) { b.m.DeleteAll(ctx) }
+func (b *genericBackend) Len() int                      { return b.m.Len() }
 
 func (b *genericBackend) Walk() Res {
 	var out []WEntry
